@@ -63,8 +63,8 @@ theorem prepare_expressions :
     Scion.Gen.Scmp.prepare_maxQuoteLen = "|:= slayers.MaxSCMPPacketLen - hdrLen" ∧
     Scion.Gen.Scmp.prepare_quoteLen = "|:= len(p.pkt.RawPacket)|= maxQuoteLen" ∧
     Scion.Gen.Scmp.prepare_headroom = "|:= len(p.pkt.buffer) - cap(p.pkt.RawPacket)" ∧
-    Scion.Gen.Scmp.prepare_conds = ["quoteLen > maxQuoteLen", "hdrLen+p.d.underlayHeadroom > headroom"] := by
-  decide
+    Scion.Gen.Scmp.prepare_conds = ["quoteLen > maxQuoteLen", "hdrLen+p.d.underlayHeadroom > headroom"] :=
+  ⟨rfl, rfl, rfl, rfl, rfl⟩
 
 /-! ## size -/
 
@@ -131,7 +131,7 @@ theorem quote_is_prefix (cfg : Cfg) (scope : Scope) (headroom : Nat) (o : Offend
       rw [h2, hquo, List.length_take]; omega
     refine ⟨?_, by omega, ?_⟩
     · rw [h2, hquo]; exact List.take_prefix _ _
-    · unfold quoteLen at hlen hq; omega
+    · unfold quoteLen at hlen hq htot; omega
   · obtain ⟨rp0, peering, rp, sz, hrev, hext, hpl, hfin⟩ := prepare_emit _ _ _ _ _ _ _ _ _ _ hp
     have hf := finish_emit _ _ _ _ _ _ _ _ _ _ _ hfin
     have : r.isError = false := hf.2.2.2.2.2.2.2.2.2.2.2.2.2.2.2.2.1
@@ -223,13 +223,11 @@ theorem pointer_spec (ah ni nh ci ch : Nat) (hh : ch < nh) (hi : ci < ni) :
     pointerOf .cmnHdr ah ni ci ch = Scion.Gen.Scmp.CmnHdrLen ∧
     pointerOf .srcIA ah ni ci ch = Scion.Gen.Scmp.CmnHdrLen + Scion.Gen.Scmp.IABytes ∧
     pointerOf .zero ah ni ci ch = 0 := by
-  unfold pointerOf hopPointer infoPointer pathLen cmnHdrLen metaLen infoLen hopLen iaBytes
-    Scion.Gen.Scmp.CmnHdrLen Scion.Gen.Scmp.IABytes
-  refine ⟨by omega, ?_, by omega, ?_, rfl, rfl, rfl⟩
-  · have : 12 * ch + 12 ≤ 12 * nh := by omega
-    omega
-  · have : 8 * ci + 8 ≤ 8 * ni := by omega
-    omega
+  have h1 : 12 * ch + 12 ≤ 12 * nh := by omega
+  have h2 : 8 * ci + 8 ≤ 8 * ni := by omega
+  simp only [pointerOf, hopPointer, infoPointer, pathLen, cmnHdrLen, metaLen, infoLen, hopLen, iaBytes,
+    Scion.Gen.Scmp.CmnHdrLen, Scion.Gen.Scmp.IABytes]
+  exact ⟨by omega, by omega, by omega, by omega, trivial, trivial, trivial⟩
 
 /-- the emitted type and code are the requested ones; a ParameterProblem carries the requested
 pointer -/
@@ -281,13 +279,21 @@ def exOffender : Offender :=
 
 def exCfg : Cfg := ⟨1, 0, [198, 51, 100, 1], true, 0⟩
 
-example :
-    (match processPacket exCfg .ext 512 exOffender ⟨4, 51, 80, 1, 0⟩ with
-     | .emit r => (r.total, r.quote.length, r.hdrLenField, r.dstIA, r.srcIA, r.auth, r.pm.currHF, r.front)
-     | _ => (0, 0, 0, 0, 0, false, 0, false)) = (1232, 1088, 26, 2, 1, true, 3, true) := by decide
+def summ : Outcome → List Nat
+  | .emit r => [r.total, r.quote.length, r.hdrLenField, r.dstIA, r.srcIA, r.auth.toNat, r.pm.currHF,
+      r.front.toNat]
+  | .drop _ => [0]
+  | .panic _ => [1]
 
-example :
-    (match processPacket exCfg .ext 512 { exOffender with l4 := .scmp 4 51 100 } ⟨4, 51, 80, 1, 0⟩ with
-     | .drop _ => true | _ => false) = true := by decide
+/- 2000-byte offender, 4-hop path, authenticated: 144 bytes of headers + 1088 quoted = 1232 bytes,
+sent to IA 2 from IA 1, reply path at hop 3, serialised in front of the quoted packet -/
+set_option maxRecDepth 20000 in
+example : summ (processPacket exCfg .ext 512 exOffender ⟨4, 51, 80, 1, 0⟩) =
+    [1232, 1088, 26, 2, 1, 1, 3, 1] := by decide
+
+/- the same packet carrying an SCMP error is not answered -/
+set_option maxRecDepth 20000 in
+example : summ (processPacket exCfg .ext 512 { exOffender with l4 := .scmp 4 51 100 } ⟨4, 51, 80, 1, 0⟩) =
+    [0] := by decide
 
 end Scion.C09
